@@ -78,6 +78,8 @@ def strategy(tier):
     @st.composite
     def _s(draw):
         spec = draw(S.nlp_spec(max_n=4 if tier == "quick" else 6, max_m=3))
+        if draw(st.integers(0, 3)) == 0:
+            spec = draw(S.magnified(spec))  # bounds of magnitude 1e3..1e6
         m = spec["m"]
         spec["cl"], spec["cu"] = [0.0] * m, [0.0] * m  # internal style
         n = spec["n"]
@@ -92,6 +94,7 @@ def strategy(tier):
             "y0": S.dvec(draw, m, -32, 32, 4.0),
             "rho": draw(st.sampled_from([1e-6, 1e-3, 0.5, 1.0, 7.0, 1e3])),
             "dt": draw(st.sampled_from([1e-4, 1e-2, 0.5, 1.0, 3.0, 1e3])),
+            "rho2": draw(st.sampled_from([1e-6, 1e-3, 0.5, 1.0, 7.0, 1e3])),
             "active": draw(st.one_of(st.none(), st.lists(st.booleans(), min_size=n, max_size=n))),
             "tau": draw(st.one_of(st.none(), st.sampled_from([1e-3, 0.1, 1.0, 10.0]))),
             "rowfilter": draw(st.lists(st.booleans(), min_size=n, max_size=n)),
@@ -137,12 +140,39 @@ def check(case):
 
     it = Iterate(problem, params, x, y)
     it0 = Iterate(problem, params, x0, y0)
+    func = ImplicitFunc(problem, it0, dt)
+    sfunc = ScaledImplicitFunc(problem, it0, dt)
+    objs = (it, it0, func, sfunc)
+    # every quantity must be a function of its arguments: the same Iterate / function objects are
+    # queried a second time with another penalty (no hidden memo keyed on object identity only)
+    rhos = [rho] + ([float(case["rho2"])] if case.get("rho2") is not None and float(case["rho2"]) != rho else [])
+    verdict = None
+    for k, rho_k in enumerate(rhos):
+        res = _block(case, r, problem, params, objs, x, y, x0, y0, rho_k, dt, labels, requery=(k > 0))
+        if res["status"] == "violation":
+            return res
+        if verdict is None:
+            verdict = res
+    if len(rhos) > 1:
+        verdict["labels"] = verdict["labels"] + ["requeried_other_rho"]
+    return verdict
+
+
+def _block(case, r, problem, params, objs, x, y, x0, y0, rho, dt, labels0, requery):
+    from pygradflow.util import keep_rows
+
+    it, it0, func, sfunc = objs
+    n, m = r.n, r.m
+    lb, ub = r.lb, r.ub
+    labels = list(labels0)
+    skipped = []
+    tagq = "|requery" if requery else ""
 
     f, g, c, J = r.f(x), r.g(x), r.c(x), r.J(x)
     aJ = np.abs(J)
 
     def V(clause, msg):
-        return violation(clause, msg, labels)
+        return violation(clause + tagq, (f"[second query on the same objects with rho={rho}] " if requery else "") + msg, labels)
 
     # ---- augmented Lagrangian and derivatives ---------------------------------------------
     al = f + rho / 2.0 * float(c @ c) + float(c @ y)
@@ -231,7 +261,6 @@ def check(case):
                 return V("locally_infeasible", f"locally_infeasible({ftol},{lit}) = {got}, reference {vs} (violation {cv:.3e}, projected gradient norm {ns:.3e})")
 
     # ---- implicit Euler residual -----------------------------------------------------------
-    func = ImplicitFunc(problem, it0, dt)
     p = x0 - dt * dx
     p_scale = np.abs(x0) + dt * dx_scale
     thr_l, thr_u = lb - 1e-8, ub + 1e-8
@@ -301,7 +330,6 @@ def check(case):
         if not close(gotFp2, Fp, Fp_scale):
             return V("deriv", "deriv(jac, hess, active) != reference")
         # scaled residual: lambda * [F_x ; -F_y] for the same active set
-        sfunc = ScaledImplicitFunc(problem, it0, dt)
         lam = 1.0 / dt
         gotS = sfunc.value_at(it, rho, act.copy())
         S_ref = lam * np.concatenate([Fx, -Fy])
